@@ -978,3 +978,26 @@ package leveldb
 //@     invariant [C07:only-stale-files-are-listed] forall k int :: 0 <= k && k < len(rem) ==> stale(db, rem[k])
 //@   at before call storage.Storage.Remove#1
 //@     assert [C07:only-stale-files-are-removed] stale(db, fd)
+
+// ---------------------------------------------------------------------------
+// C01: the lookup rule of version.get, stated on its two callbacks (function literals verified as units; the
+// locals of version.get they capture are arbitrary at their entry).
+// Callback 1 is called for every table that may hold the key, newest level first. Among level-0 (and transaction)
+// tables the entry with the highest sequence number wins; at a deeper level the first table holding the user key
+// decides and stops the walk; a table without the user key changes nothing and lets the walk go on.
+//@ func (*version).get$1
+//@   props C01
+//@   abstract keys
+//@   safety off
+//@   guarantees [C01:other-keys-change-nothing] (result && ferr == nil) ==> ((kcmp(ukey, fukey) != 0) ==> (zfound == old(zfound) && zseq == old(zseq) && zkt == old(zkt) && err == old(err)))
+//@   guarantees [C01:level-0-keeps-the-newest] (ferr == nil) ==> ((fkerr == nil && kcmp(ukey, fukey) == 0 && level <= 0) ==> (result && zseq >= old(zseq) && zseq >= fseq && (fseq >= old(zseq) ==> zfound) && (fseq >= old(zseq) ==> (zseq == fseq && zkt == fkt)) && (fseq < old(zseq) ==> (zseq == old(zseq) && zkt == old(zkt) && zfound == old(zfound)))))
+//@   guarantees [C01:deeper-level-first-hit-decides] (ferr == nil) ==> ((fkerr == nil && kcmp(ukey, fukey) == 0 && level > 0) ==> (!result && (fkt == keyTypeVal ==> err == nil) && (fkt == keyTypeDel ==> err == old(err))))
+//@   guarantees [C01:table-error-stops-the-walk] (ferr != nil && ferr != ErrNotFound) ==> (!result && err == ferr)
+// Callback 2 runs after each level: a level-0 hit ends the lookup with the winner's value or, for a deletion
+// marker, with not-found.
+//@ func (*version).get$2
+//@   props C01
+//@   abstract keys
+//@   safety off
+//@   ensures [C01:level-0-winner-ends-the-lookup] old(zfound) ==> (!result && (zkt == keyTypeVal ==> err == nil) && (zkt == keyTypeDel ==> err == old(err)))
+//@   ensures [C01:no-hit-goes-deeper] !old(zfound) ==> (result && err == old(err))
